@@ -18,3 +18,9 @@ def run(rep, tier):
     mapping.spelling_pairs(rep)
     mapping.bound_spellings(rep)
     mapping.precedence_rows(rep)
+    # the two spellings of a bound reach List as str resp. int: the static flags must be sound for both
+    from .. import e1run
+    rep.rule('G2-cp-sound', 'List flags are sound for the str and the int spelling of every bound')
+    rep.rule('G2-as-sound', 'List flags are sound for the str and the int spelling of every bound')
+    total = e1run.run(rep, ['List'], tier, select=lambda f: f['rule'] in ('G2-cp-sound', 'G2-as-sound', 'F0-flags-exclusive'))
+    rep.floor('configurations of List', total.get('List', 0), 200)
